@@ -86,7 +86,7 @@ def run_mode(mode, tier, seed, key):
         return reqs, ans, False
 
 
-STAGE_EXTRA_GEN = {"s6": "s6-gen", "s7": "s6-gen"}   # stage kind -> additional harness generator for that stage
+STAGE_EXTRA_GEN = {"s6": "s6-gen", "s7": "s6-gen", "s9": "s6-gen"}   # stage kind -> additional harness generator for that stage
 STAGE_STATS = collections.Counter()   # filled by the stage comparisons (fragile / branch / hypothesis counts)
 
 
@@ -103,6 +103,9 @@ def stage_compare(kind, exp, out):
     if kind in ("s6", "s7"):
         from checks import stages_s6
         return stages_s6.compare(kind, exp, out, STAGE_STATS)
+    if kind == "s9":
+        from checks import stages_s9
+        return stages_s9.compare(kind, exp, out, STAGE_STATS)
     if kind in ("s1", "s2", "s3"):
         from checks import s13
         return s13.compare(kind, exp, out, STAGE_STATS)
